@@ -208,9 +208,9 @@ theories/FileIO/FileBuf.vos theories/FileIO/FileBuf.vok theories/FileIO/FileBuf.
 theories/FileIO/FileBufProofs.vo theories/FileIO/FileBufProofs.glob theories/FileIO/FileBufProofs.v.beautified theories/FileIO/FileBufProofs.required_vo: theories/FileIO/FileBufProofs.v theories/FileIO/FileBuf.vo
 theories/FileIO/FileBufProofs.vio: theories/FileIO/FileBufProofs.v theories/FileIO/FileBuf.vio
 theories/FileIO/FileBufProofs.vos theories/FileIO/FileBufProofs.vok theories/FileIO/FileBufProofs.required_vos: theories/FileIO/FileBufProofs.v theories/FileIO/FileBuf.vos
-theories/Properties_C09.vo theories/Properties_C09.glob theories/Properties_C09.v.beautified theories/Properties_C09.required_vo: theories/Properties_C09.v theories/FileIO/Chunks.vo theories/FileIO/ChunksProofs.vo theories/FileIO/FileSpec.vo theories/FileIO/FileSpecProofs.vo
-theories/Properties_C09.vio: theories/Properties_C09.v theories/FileIO/Chunks.vio theories/FileIO/ChunksProofs.vio theories/FileIO/FileSpec.vio theories/FileIO/FileSpecProofs.vio
-theories/Properties_C09.vos theories/Properties_C09.vok theories/Properties_C09.required_vos: theories/Properties_C09.v theories/FileIO/Chunks.vos theories/FileIO/ChunksProofs.vos theories/FileIO/FileSpec.vos theories/FileIO/FileSpecProofs.vos
+theories/Properties_C09.vo theories/Properties_C09.glob theories/Properties_C09.v.beautified theories/Properties_C09.required_vo: theories/Properties_C09.v theories/FileIO/Chunks.vo theories/FileIO/ChunksProofs.vo theories/FileIO/FileSpec.vo theories/FileIO/FileSpecProofs.vo theories/FileIO/FileBuf.vo theories/FileIO/FileBufProofs.vo
+theories/Properties_C09.vio: theories/Properties_C09.v theories/FileIO/Chunks.vio theories/FileIO/ChunksProofs.vio theories/FileIO/FileSpec.vio theories/FileIO/FileSpecProofs.vio theories/FileIO/FileBuf.vio theories/FileIO/FileBufProofs.vio
+theories/Properties_C09.vos theories/Properties_C09.vok theories/Properties_C09.required_vos: theories/Properties_C09.v theories/FileIO/Chunks.vos theories/FileIO/ChunksProofs.vos theories/FileIO/FileSpec.vos theories/FileIO/FileSpecProofs.vos theories/FileIO/FileBuf.vos theories/FileIO/FileBufProofs.vos
 theories/Parsers/DirWalk.vo theories/Parsers/DirWalk.glob theories/Parsers/DirWalk.v.beautified theories/Parsers/DirWalk.required_vo: theories/Parsers/DirWalk.v 
 theories/Parsers/DirWalk.vio: theories/Parsers/DirWalk.v 
 theories/Parsers/DirWalk.vos theories/Parsers/DirWalk.vok theories/Parsers/DirWalk.required_vos: theories/Parsers/DirWalk.v 
